@@ -63,8 +63,9 @@ def cases(draw, tier):
     return case
 
 
-def trace_addresses(start, data, entries, steps):
-    """Addresses of instructions actually executed from the entry points (in range only)."""
+def trace_addresses(start, data, entries, steps, rst_args=None):
+    """Addresses of instructions actually executed from the entry points (in range only). rst_args: {address: n} - the
+    program's own RST routines consume n inline argument bytes and return behind them (what -r describes)."""
     from skoolkit.simulator import Simulator
     end = start + len(data)
     seen = set()
@@ -81,6 +82,10 @@ def trace_addresses(start, data, entries, steps):
             if pc + z80ref.instruction_length(*[mem[(pc + k) & 0xFFFF] for k in range(4)]) > end:
                 break
             seen.add(pc)
+            op = mem[pc]
+            if rst_args and op & 0xC7 == 0xC7 and (op & 0x38) in rst_args:
+                pc = pc + 1 + rst_args[op & 0x38]
+                continue
             sim.run(pc)
             pc = regs[24]
     return sorted(seen)
@@ -149,7 +154,10 @@ def oracle(case, rec=None):
         mp = case['map']
         if mp:
             if mp['kind'] == 'trace':
-                mapped = trace_addresses(start, list(data), mp['entries'], mp['steps'])
+                rst_args = None
+                if case['rst']:
+                    rst_args = {int(x.split(':')[0]): {'B': 1, 'W': 2}[x.split(':')[1]] for x in case['rstcfg'].split(',')}
+                mapped = trace_addresses(start, list(data), mp['entries'], mp['steps'], rst_args)
             else:
                 mapped = [start + o for o in mp['offsets'] if o < len(data)]
             if not mapped:
@@ -216,6 +224,14 @@ def oracle(case, rec=None):
         if bad:
             sig = 'overlap-warning'
             m = re.search(r'Instruction at (\$?[0-9A-Fa-f]+) overlaps', bad[0]) or re.search(r"directive at (\d+)/\$[0-9A-Fa-f]+ overlaps '[a-z]' directive", bad[0])
+            if mp:
+                # F16 is about block starts taken from the map (an executed address inside an instruction of the
+                # preceding block) and about the block that reaches END: an overlap at any other address is something else
+                my = re.search(r'overlaps the following instruction at (\$?[0-9A-Fa-f]+)', bad[0])
+                if my:
+                    y = _addr(my.group(1)) if my.group(1)[0] == '$' else int(my.group(1))
+                    if y not in set(mapped) and y != max(a for c, a in blocks):
+                        sig = 'overlap-warning:block-start-not-executed'
             if m and not mp:
                 x = _addr(m.group(1)) if m.group(1)[0] == '$' else int(m.group(1))
                 idx = max(i for i, (c, a) in enumerate(blocks) if a <= x)
